@@ -134,6 +134,30 @@ ConsF == {Con(t, c, k) : t \in TermF, c \in Cmps, k \in {Num(4, 1), Num(13, 2)}}
 DomsF == { <<Decl("x", "real", Fin(0, 1), Fin(3, 1)), Decl("y", "real", Fin(0, 1), Fin(3, 1))>>,
            <<Decl("x", "int", Fin(-2, 1), Fin(2, 1)), Decl("y", "real", Fin(-1, 1), Fin(3, 2))>> }
 ---------------------------------------------------------------------------
+(* family G: end-to-end programs over enumerable domains (C03): integer and *)
+(* Boolean variables only, so the reference interpreter decides the model   *)
+(* by enumerating the declared domains.  One constraint (G, exhaustive) or  *)
+(* two (H, TLC simulation) and a min / max / satisfy objective.             *)
+LeafG == {x, y, Num(1, 1), Num(-2, 1)}
+TermG == {x, y, p}
+         \cup {B(o, a, b) : o \in {"add", "sub"}, a \in {x, y}, b \in LeafG}
+         \cup {B("mul", k, v) : k \in {Num(2, 1), Num(-1, 1), Num(1, 2)}, v \in {x, y}}
+         \cup {B("div", v, Num(2, 1)) : v \in {x, y}}
+         \cup {U("abs", B("sub", x, y)), U("abs", x), U("neg", y)}
+         \cup {N2(o, a, b) : o \in {"min", "max"}, a \in {x, B("sub", x, Num(1, 1))}, b \in {y, Num(1, 1)}}
+         \cup {B("sub", x, B("sub", y, Num(1, 1))), B("sub", x, B("add", y, Num(1, 1))), B("mul", Num(2, 1), B("add", x, y)),
+               B("div", B("sub", x, y), Num(2, 1)), B("sub", B("mul", Num(2, 1), x), U("abs", y)),
+               B("add", N2("and", p, q), x), B("sub", y, B("xor", p, q)), B("mul", Num(2, 1), N2("or", p, U("not", q)))}
+LogG == {N2("and", p, q), N2("or", p, U("not", q)), B("implies", p, q), B("iff", p, q), B("xor", p, q), U("not", p),
+         B("implies", B("implies", p, q), p), B("iff", B("implies", p, q), q), B("implies", p, B("iff", q, p)),
+         N2("or", N2("and", p, q), U("not", p)), N2("and", N2("or", p, q), U("not", N2("and", p, q)))}
+ConsG == {Con(t, c, k) : t \in TermG, c \in Cmps, k \in {Num(1, 1), Num(3, 1), Num(-1, 1)}}
+         \cup {Asrt(l) : l \in LogG}
+         \cup {Con(B("add", l, x), c, Num(2, 1)) : l \in LogG, c \in {"le", "ge"}}
+ObjG == {<<s, t>> : s \in {"min", "max"}, t \in TermG} \cup {<<"sat", Num(0, 1)>>}
+DomsG == { <<Decl("x", "int", Fin(-2, 1), Fin(3, 1)), Decl("y", "int", Fin(0, 1), Fin(4, 1)),
+             Decl("p", "bool", Fin(0, 1), Fin(1, 1)), Decl("q", "bool", Fin(0, 1), Fin(1, 1))>> }
+---------------------------------------------------------------------------
 (* family E: naming and well-formedness corner cases (C08)                  *)
 NamedCon(nm, c) == [c EXCEPT !.name = nm]
 InfP == Num(1, 0)     \* +infinity (symbolic: d = 0)
@@ -167,14 +191,15 @@ ConsE == {NamedCon("a", Con(U("abs", y), "ge", Num(1, 2))),
           Con(N2("min", z, Num(1, 1)), "le", Num(1, 2)),
           Con(B("sub", Num(0, 1), N2("max", V("w"), y)), "le", Num(0, 1))}
 ---------------------------------------------------------------------------
-Doms == CASE Family = "A" -> DomsA [] Family = "B" -> DomsB [] Family = "C" -> DomsC [] Family = "D" -> DomsD [] Family = "E" -> DomsE [] Family = "F" -> DomsF
-Cons == CASE Family = "A" -> ConsA [] Family = "B" -> ConsB [] Family = "C" -> ConsC [] Family = "D" -> ConsD [] Family = "E" -> ConsE [] Family = "F" -> ConsF
+Doms == CASE Family = "A" -> DomsA [] Family = "B" -> DomsB [] Family = "C" -> DomsC [] Family = "D" -> DomsD [] Family = "E" -> DomsE [] Family = "F" -> DomsF [] Family \in {"G", "H"} -> DomsG
+Cons == CASE Family = "A" -> ConsA [] Family = "B" -> ConsB [] Family = "C" -> ConsC [] Family = "D" -> ConsD [] Family = "E" -> ConsE [] Family = "F" -> ConsF [] Family \in {"G", "H"} -> ConsG
 Pre  == CASE Family = "C" -> BoundRowsC [] OTHER -> {<<>>}
 Objs == CASE Family = "D" -> {<<s, o>> : s \in {"min", "max"}, o \in ObjD}
           [] Family = "C" -> {<<"min", U("abs", x)>>, <<"max", N2("min", x, y)>>, <<"sat", Num(0, 1)>>}
           [] Family = "E" -> {<<"min", U("abs", ax)>>, <<"sat", Num(0, 1)>>}
+          [] Family \in {"G", "H"} -> ObjG
           [] OTHER -> {<<"sat", Num(0, 1)>>}
-MaxCons == CASE Family = "D" -> 2 [] Family = "E" -> 3 [] OTHER -> 1
+MaxCons == CASE Family = "D" -> 2 [] Family = "E" -> 3 [] Family = "H" -> 2 [] OTHER -> 1
 MinCons == CASE Family = "D" -> 0 [] OTHER -> 1
 
 VARIABLES phase, dom, cons, obj, n
